@@ -326,7 +326,7 @@ func runStream(sc *scenario, col *collector, rnd *tr.Rand) {
 	}
 	var long []lived
 	for i := 0; i < 12; i++ {
-		c, err := sc.dial(1000 + i)
+		c, err := sc.dial(1000000 + 3*i + i%3)
 		if err != nil {
 			col.infraErr("%s: dial: %v", sc.name, err)
 			return
@@ -442,6 +442,22 @@ func runUDP(sc *scenario, col *collector) {
 			col.infraErr("%s: server did not stop", sc.name)
 		}
 	}()
+	if sc.port0 {
+		fd, err := srv.eng.Dup()
+		if err != nil {
+			col.infraErr("%s: Dup: %v", sc.name, err)
+			return
+		}
+		sa, err := unix.Getsockname(fd)
+		_ = unix.Close(fd)
+		if err != nil {
+			col.infraErr("%s: getsockname: %v", sc.name, err)
+			return
+		}
+		port := sa.(*unix.SockaddrInet4).Port
+		sc.dialAddr = net.JoinHostPort("127.0.0.1", strconv.Itoa(port))
+		sc.wantLocal = inetWant(net.IP{127, 0, 0, 1}, port, "")
+	}
 	var wg sync.WaitGroup
 	var replies int64
 	for k := 0; k < 8; k++ {
@@ -498,83 +514,135 @@ func linkLocal() (net.IP, string) {
 	return nil, ""
 }
 
-func integration(seed uint64, tier string) {
-	rnd := tr.NewRand(seed ^ 0xC17)
-	conns := 300
-	if tier == "thorough" {
-		conns = 3000
-	}
+var scenarioNames = []string{"tcp4-reactors", "tcp4-reuseport-et", "tcp6-loopback", "tcp6-linklocal-zone",
+	"tcp-wildcard-dualstack", "tcp4-port0", "unix", "udp4", "udp6", "udp4-port0"}
+
+// buildScenario returns nil when the machine cannot run it (no IPv6, no link-local address).
+func buildScenario(name string, conns int, dir string) *scenario {
 	quiet := gnet.WithLogger(nopLogger{})
+	switch name {
+	case "tcp4-reactors":
+		p := freePort("tcp4", "127.0.0.1")
+		return &scenario{name: name, addr: fmt.Sprintf("tcp://127.0.0.1:%d", p), dialNet: "tcp4", dialAddr: fmt.Sprintf("127.0.0.1:%d", p),
+			wantLocal: inetWant(net.IP{127, 0, 0, 1}, p, ""), opts: []gnet.Option{quiet, gnet.WithNumEventLoop(4)}, conns: conns}
+	case "tcp4-reuseport-et":
+		p := freePort("tcp4", "127.0.0.1")
+		return &scenario{name: name, addr: fmt.Sprintf("tcp4://127.0.0.1:%d", p), dialNet: "tcp4", dialAddr: fmt.Sprintf("127.0.0.1:%d", p),
+			wantLocal: inetWant(net.IP{127, 0, 0, 1}, p, ""), opts: []gnet.Option{quiet, gnet.WithNumEventLoop(4), gnet.WithReusePort(true), gnet.WithEdgeTriggeredIO(true)}, conns: conns}
+	case "tcp6-loopback":
+		p := freePort("tcp6", "::1")
+		if p == 0 {
+			return nil
+		}
+		return &scenario{name: name, addr: fmt.Sprintf("tcp://[::1]:%d", p), dialNet: "tcp6", dialAddr: fmt.Sprintf("[::1]:%d", p),
+			wantLocal: inetWant(net.IPv6loopback, p, ""), opts: []gnet.Option{quiet, gnet.WithNumEventLoop(3), gnet.WithLoadBalancing(gnet.LeastConnections)}, conns: conns}
+	case "tcp6-linklocal-zone":
+		ll, zone := linkLocal()
+		if ll == nil {
+			return nil
+		}
+		p := freePort("tcp6", ll.String()+"%"+zone)
+		if p == 0 {
+			return nil
+		}
+		hp := fmt.Sprintf("[%s%%%s]:%d", ll, zone, p)
+		return &scenario{name: name, addr: "tcp6://" + hp, dialNet: "tcp6", dialAddr: hp,
+			wantLocal: inetWant(ll, p, zone), opts: []gnet.Option{quiet, gnet.WithNumEventLoop(4), gnet.WithLoadBalancing(gnet.SourceAddrHash)}, conns: conns}
+	case "tcp-wildcard-dualstack":
+		wp := freePort("tcp4", "127.0.0.1")
+		return &scenario{name: name, addr: fmt.Sprintf("tcp://:%d", wp), dialNet: "tcp4", dialAddr: fmt.Sprintf("127.0.0.1:%d", wp), wildcard: true,
+			wantLocal: func(l string) bool {
+				return l == canon(&net.TCPAddr{Port: wp}) || l == canon(&net.TCPAddr{IP: net.IPv6zero, Port: wp}) || l == canon(&net.TCPAddr{IP: net.IPv4zero, Port: wp})
+			}, opts: []gnet.Option{quiet, gnet.WithNumEventLoop(2)}, conns: conns / 3}
+	case "tcp4-port0":
+		return &scenario{name: name, addr: "tcp://127.0.0.1:0", dialNet: "tcp4", port0: true,
+			wantLocal: func(l string) bool { return strings.HasPrefix(l, "inet|"+hex.EncodeToString(net.IP{127, 0, 0, 1}.To16())+"|") },
+			opts:      []gnet.Option{quiet, gnet.WithNumEventLoop(2)}, conns: conns / 10}
+	case "unix":
+		sub, err := os.MkdirTemp(dir, "u")
+		if err != nil {
+			return nil
+		}
+		sock := filepath.Join(sub, "srv.sock")
+		return &scenario{name: name, addr: "unix://" + sock, dialNet: "unix", dialAddr: sock, unixDir: sub,
+			wantLocal: func(l string) bool { return l == canon(&net.UnixAddr{Name: sock, Net: "unix"}) },
+			opts:      []gnet.Option{quiet, gnet.WithNumEventLoop(4)}, conns: conns}
+	case "udp4":
+		p := freePort("udp4", "127.0.0.1")
+		return &scenario{name: name, udp: true, addr: fmt.Sprintf("udp://127.0.0.1:%d", p), dialNet: "udp4", dialAddr: fmt.Sprintf("127.0.0.1:%d", p),
+			wantLocal: inetWant(net.IP{127, 0, 0, 1}, p, ""), opts: []gnet.Option{quiet, gnet.WithNumEventLoop(3)}, conns: conns}
+	case "udp6":
+		p := freePort("udp6", "::1")
+		if p == 0 {
+			return nil
+		}
+		return &scenario{name: name, udp: true, addr: fmt.Sprintf("udp6://[::1]:%d", p), dialNet: "udp6", dialAddr: fmt.Sprintf("[::1]:%d", p),
+			wantLocal: inetWant(net.IPv6loopback, p, ""), opts: []gnet.Option{quiet, gnet.WithNumEventLoop(3)}, conns: conns}
+	case "udp4-port0":
+		// a single loop: with SO_REUSEPORT every loop would bind its own ephemeral port
+		return &scenario{name: name, udp: true, port0: true, addr: "udp://127.0.0.1:0", dialNet: "udp4",
+			wantLocal: func(l string) bool { return true }, opts: []gnet.Option{quiet, gnet.WithNumEventLoop(1)}, conns: conns / 4}
+	}
+	return nil
+}
+
+// runScenario runs one live-server scenario and reports into the current trace case.
+func runScenario(name string, conns int, rnd *tr.Rand) {
 	dir, err := os.MkdirTemp("/var/tmp", "verif-c17-")
 	if err != nil {
 		dir = os.TempDir()
+	} else {
+		defer os.RemoveAll(dir)
 	}
-	defer os.RemoveAll(dir)
-
-	var scs []*scenario
-	p := freePort("tcp4", "127.0.0.1")
-	scs = append(scs, &scenario{name: "tcp4-reactors", addr: fmt.Sprintf("tcp://127.0.0.1:%d", p), dialNet: "tcp4", dialAddr: fmt.Sprintf("127.0.0.1:%d", p),
-		wantLocal: inetWant(net.IP{127, 0, 0, 1}, p, ""), opts: []gnet.Option{quiet, gnet.WithNumEventLoop(4)}, conns: conns})
-	p = freePort("tcp4", "127.0.0.1")
-	scs = append(scs, &scenario{name: "tcp4-reuseport-et", addr: fmt.Sprintf("tcp4://127.0.0.1:%d", p), dialNet: "tcp4", dialAddr: fmt.Sprintf("127.0.0.1:%d", p),
-		wantLocal: inetWant(net.IP{127, 0, 0, 1}, p, ""), opts: []gnet.Option{quiet, gnet.WithNumEventLoop(4), gnet.WithReusePort(true), gnet.WithEdgeTriggeredIO(true)}, conns: conns})
-	p = freePort("tcp6", "::1")
-	if p != 0 {
-		scs = append(scs, &scenario{name: "tcp6-loopback", addr: fmt.Sprintf("tcp://[::1]:%d", p), dialNet: "tcp6", dialAddr: fmt.Sprintf("[::1]:%d", p),
-			wantLocal: inetWant(net.IPv6loopback, p, ""), opts: []gnet.Option{quiet, gnet.WithNumEventLoop(3), gnet.WithLoadBalancing(gnet.LeastConnections)}, conns: conns})
-	}
-	if ll, zone := linkLocal(); ll != nil {
-		if p = freePort("tcp6", ll.String()+"%"+zone); p != 0 {
-			hp := fmt.Sprintf("[%s%%%s]:%d", ll, zone, p)
-			scs = append(scs, &scenario{name: "tcp6-linklocal-zone", addr: "tcp6://" + hp, dialNet: "tcp6", dialAddr: hp,
-				wantLocal: inetWant(ll, p, zone), opts: []gnet.Option{quiet, gnet.WithNumEventLoop(4), gnet.WithLoadBalancing(gnet.SourceAddrHash)}, conns: conns})
+	col := newCollector()
+	ran := false
+	for attempt := 0; attempt < 2; attempt++ {
+		sc := buildScenario(name, conns, dir)
+		if sc == nil {
+			break
+		}
+		ran = true
+		col.infra = nil
+		if sc.udp {
+			runUDP(sc, col)
+		} else {
+			runStream(sc, col, rnd)
+		}
+		if len(col.infra) == 0 {
+			break
 		}
 	}
-	wp := freePort("tcp4", "127.0.0.1")
-	scs = append(scs, &scenario{name: "tcp-wildcard-dualstack", addr: fmt.Sprintf("tcp://:%d", wp), dialNet: "tcp4", dialAddr: fmt.Sprintf("127.0.0.1:%d", wp), wildcard: true,
-		wantLocal: func(l string) bool {
-			return l == canon(&net.TCPAddr{Port: wp}) || l == canon(&net.TCPAddr{IP: net.IPv6zero, Port: wp}) || l == canon(&net.TCPAddr{IP: net.IPv4zero, Port: wp})
-		}, opts: []gnet.Option{quiet, gnet.WithNumEventLoop(2)}, conns: conns / 3})
-	scs = append(scs, &scenario{name: "tcp4-port0", addr: "tcp://127.0.0.1:0", dialNet: "tcp4", port0: true,
-		wantLocal: func(l string) bool { return strings.HasPrefix(l, "inet|"+hex.EncodeToString(net.IP{127, 0, 0, 1}.To16())+"|") },
-		opts:      []gnet.Option{quiet, gnet.WithNumEventLoop(2)}, conns: 30})
-	sock := filepath.Join(dir, "srv.sock")
-	scs = append(scs, &scenario{name: "unix", addr: "unix://" + sock, dialNet: "unix", dialAddr: sock, unixDir: dir,
-		wantLocal: func(l string) bool { return l == canon(&net.UnixAddr{Name: sock, Net: "unix"}) },
-		opts:      []gnet.Option{quiet, gnet.WithNumEventLoop(4)}, conns: conns})
-	p = freePort("udp4", "127.0.0.1")
-	scs = append(scs, &scenario{name: "udp4", udp: true, addr: fmt.Sprintf("udp://127.0.0.1:%d", p), dialNet: "udp4", dialAddr: fmt.Sprintf("127.0.0.1:%d", p),
-		wantLocal: inetWant(net.IP{127, 0, 0, 1}, p, ""), opts: []gnet.Option{quiet, gnet.WithNumEventLoop(3)}, conns: conns})
-	if p = freePort("udp6", "::1"); p != 0 {
-		scs = append(scs, &scenario{name: "udp6", udp: true, addr: fmt.Sprintf("udp6://[::1]:%d", p), dialNet: "udp6", dialAddr: fmt.Sprintf("[::1]:%d", p),
-			wantLocal: inetWant(net.IPv6loopback, p, ""), opts: []gnet.Option{quiet, gnet.WithNumEventLoop(3)}, conns: conns})
+	if !ran {
+		w.Hist("int-skipped-" + name)
+		return
 	}
+	w.Tag("integration-" + name)
+	for k, n := range col.checks {
+		w.Stats.Hist["int-"+k] += n
+	}
+	for _, sig := range col.order {
+		w.Fail("integration", sig, col.fails[sig])
+	}
+	for _, e := range col.infra {
+		w.Fail("integration-infra", name, e)
+	}
+}
 
-	for _, sc := range scs {
-		col := newCollector()
-		for attempt := 0; attempt < 2; attempt++ {
-			col.infra = nil
-			if sc.udp {
-				runUDP(sc, col)
-			} else {
-				runStream(sc, col, rnd)
-			}
-			if len(col.infra) == 0 {
-				break
-			}
-		}
+func integrationConns(tier string) int {
+	if tier == "thorough" {
+		return 3000
+	}
+	return 300
+}
+
+// integration: one case per scenario; the op line `int <scenario>` makes the case replayable.
+func integration(seed uint64, tier string) {
+	rnd := tr.NewRand(seed ^ 0xC17)
+	for _, name := range scenarioNames {
 		cid++
-		w.Case(fmt.Sprintf("int%d-%s", cid, sc.name), "sockaddr", "integration="+sc.name)
-		w.Tag("integration-" + sc.name)
-		for k, n := range col.checks {
-			w.Stats.Hist["int-"+k] += n
-		}
-		for _, sig := range col.order {
-			w.Fail("integration", sig, col.fails[sig])
-		}
-		for _, e := range col.infra {
-			w.Fail("integration-infra", sc.name, e)
-		}
+		w.Case(fmt.Sprintf("int%d-%s", cid, name), "sockaddr", "integration="+name)
+		w.Op(tr.L("int", name))
+		runScenario(name, integrationConns(tier), rnd)
 		w.End()
 	}
 }
